@@ -201,9 +201,19 @@ def random_part(ctx, res, lib):
         kind = "matrix" if (equal_len and rng.random() < 0.5) else "list"
         data = container(series, ndim, kind)
         settings = {"window": rng.choice([None, 1, 2, 3]), "penalty": rng.choice([None, 1]),
-                    "psi": rng.choice([None, 1]), "inner": "sq"}
-        if settings["psi"] and min(len(s) // ndim for s in series) < 1:
-            settings["psi"] = None
+                    "psi": rng.choice([None, 1, (1, 0, 0, 1), (0, 1, 1, 0), (2, 0, 0, 0), (0, 0, 0, 2)]), "inner": "sq"}
+        if settings["psi"]:
+            # per-series psi entries (asymmetric tuples) must be admissible for every ordered pair
+            ok = True
+            for a in series:
+                for b_ in series:
+                    cs = {"s1": a, "s2": b_, "ndim": ndim, "psi": settings["psi"]}
+                    if not dc.psi_in_range(cs) or dc.degenerate_psi(cs):
+                        ok = False
+            if not ok:
+                settings["psi"] = None
+        if isinstance(settings["psi"], tuple):
+            res.hit("asymmetric_psi")
         blocks = list(all_blocks(n))
         b = rng.choice(blocks)
         plan = ctx.driver.run([block_op(n, b)])[0]
